@@ -18,9 +18,12 @@ Only confirmed findings are reported as violations; an unconfirmed exact-stage f
 (the exact stage does not fit the implementation), never as a violation."""
 import math
 
+# ("exception:Runaway" - more waiting-time draws than the event horizon allows - stays a direct finding: an event loop
+# that spins without advancing its clock would also hang the confirmation runs)
 CONFIRMABLE = ("clock-rate", "no-clock-draw", "probability", "missing-event", "stopped-early", "event-times",
-               "exception:Runaway", "exception:Unmodelled", "unmodelled")
+               "exception:Unmodelled", "unmodelled")
 P_REJECT = 1e-9
+RUN_TIMEOUT = 8          # seconds for ONE seeded run of a 3-5 node scenario (they take milliseconds)
 
 
 def needs_confirmation(problems):
@@ -59,11 +62,37 @@ def confirm(real_run, st0, succ, rate_unit, nruns, seed0=0, max_depth=6, min_n=1
             x = trie[h] = {"n": 0, "next": {}, "exposure": 0.0, "events": 0, "ended": 0}
         return x
 
+    import signal
+
+    class _Stuck(BaseException):
+        pass
+
+    def _alarm(signum, frame):
+        raise _Stuck()
     for k in range(nruns):
-        r = real_run(seed0 + k)
+        # a run with the real random source that does not come back (an event loop that no longer advances its clock)
+        # confirms the exact stage's "more clock draws than events" finding by itself
+        old = signal.signal(signal.SIGALRM, _alarm)
+        signal.alarm(RUN_TIMEOUT)
+        try:
+            r = real_run(seed0 + k)
+        except (_Stuck, MemoryError) as ex:
+            return ([{"kind": "exception:Runaway", "history": [],
+                      "detail": "a seeded run with the real random source (seed %d) did not finish within %d s%s: the event loop does not terminate"
+                                % (seed0 + k, RUN_TIMEOUT, " and exhausted its memory" if isinstance(ex, MemoryError) else "")}],
+                    {"runs": k + 1, "histories": len(trie), "tests": 0})
+        finally:
+            signal.alarm(0)
+            signal.signal(signal.SIGALRM, old)
         if r.get("error") is not None:
             e = r["error"]
+            if isinstance(e, MemoryError):
+                return ([{"kind": "exception:Runaway", "history": [],
+                          "detail": "a seeded run with the real random source (seed %d) exhausted its memory: the event loop does not terminate" % (seed0 + k)}],
+                        {"runs": k + 1, "histories": len(trie), "tests": 0})
             errors.setdefault(type(e).__name__, [0, repr(e), seed0 + k])[0] += 1
+            if k + 1 >= 50 and sum(v[0] for v in errors.values()) == k + 1:
+                break          # every run so far raised: no need for thousands more
             continue
         h = ()
         tprev = r["tmin"]
